@@ -14,7 +14,7 @@
     [wf_trials]: see Properties/C16.v. *)
 From Coq Require Import ZArith List Bool Arith.
 From SP Require Import Design.Flat Design.Sem Front.Trials Front.TrialsWf Front.TrialsProofs Front.Create
-  Front.NestProofs.
+  Front.NestProofs Front.NestSem.
 Import ListNotations.
 
 (** What Nest(outer, inner, cs) builds: the crossings of both blocks side by side, the
@@ -80,22 +80,47 @@ Theorem C25_nest_min_trials :
 Proof. exact nest_min_trials. Qed.
 Print Assumptions C25_nest_min_trials.
 
-(** Groups (partial).  Full statement, not proved:
-      a sequence is valid for Nest(outer, inner) iff it splits into [outer trials]
-      consecutive groups of [inner trials] trials such that the outer block's crossed
-      factors are constant within each group, the sequence of group representatives
-      satisfies the outer block's crossing, and each group restricted to the inner design
-      is valid for the inner block (crossing and constraints); and nesting is associative.
-    Proved: (1) [C25_nest_args]: every factor of an outer crossing gets the sustain count
-    [inner length x its outer sustain count] and is in no inner crossing, the inner
-    crossings keep theirs; (2) below: in the reference semantics (Design/Sem.v) a
-    non-derived factor with sustain count [su] carries one level per group of [su]
-    consecutive trials - the outer levels are held fixed over each inner run.
-    Gap: that the outer crossing / constraints read on group representatives and the
-    inner crossing / constraints read inside each group are what the REPEAT-mode crossing
-    chunks and the rescaled constraint windows of the combined block denote (needs the
-    denotation of the compiled Cross / Sustain constraints of fragment F3), and
-    associativity; the harness decides exactly these on exhausted solution sets. *)
+(** Groups.  [nest_sem So Si] (Front/NestSem.v) is the reference-semantics normal form that
+    the arguments of Nest(outer, inner) denote when [So], [Si] are those of the outer and
+    inner block: [To * Ti] trials; the outer block's crossed factors with sustain count [Ti];
+    the outer crossings with chunks and multiplicities multiplied by [Ti]; the inner crossings
+    repeated with their own chunks (harness/docsem.py builds the same form from the
+    documentation of Nest, and c25.py compares the two on every run).
+    Under the guard [nestable_b So Si] - non-derived factors of sustain count 1, no
+    constraints, no preamble trials, outer crossings over outer factors, inner crossing
+    chunks dividing the inner trial count - a sequence is valid for the Nest iff
+    ([groups_spec]) it has one row of [To * Ti] cells per factor, every outer factor has one
+    of its levels at every trial, and
+      (a) the outer block's crossed factors are constant within each group of [Ti] trials,
+      (b) the group representatives [reps] satisfy every crossing of the outer block,
+      (c) every group [grp g] is a valid sequence of the inner block. *)
+Theorem C25_nest_groups :
+  forall So Si s,
+    nestable_b So Si = true ->
+    (valid_b (nest_sem So Si) s = true <-> groups_spec So Si s).
+Proof. exact nest_groups. Qed.
+Print Assumptions C25_nest_groups.
+
+(** The guard is met by Nest(CrossBlock([A],[A],[]), Repeat(CrossBlock([B],[B],[]),[MinimumTrials(4)]))
+    (2 x 4 trials): 32 valid sequences, one of them with its representatives and groups. *)
+Example C25_example_groups :
+  nestable_b ex_sem_outer ex_sem_inner = true /\
+  length (all_valid (nest_sem ex_sem_outer ex_sem_inner)) = 32 /\
+  valid_b (nest_sem ex_sem_outer ex_sem_inner) ex_nest_seq = true /\
+  reps 1 2 4 ex_nest_seq = [[Some 1; Some 0]] /\
+  grp 1 4 0 ex_nest_seq = [[Some 0; Some 1; Some 1; Some 0]] /\
+  grp 1 4 1 ex_nest_seq = [[Some 1; Some 0; Some 0; Some 1]].
+Proof.
+  split; [exact ex_nestable|]. split; [exact (proj1 ex_nest_count)|].
+  destruct ex_nest_seq_valid as [H1 [H2 [H3 H4]]]. repeat split; assumption.
+Qed.
+
+(** Outside the guard (derived factors, constraints, preamble trials, nested Nests, inner
+    crossings with a partial last chunk) the following part holds for every normal form: in the
+    reference semantics a non-derived factor with sustain count [su] carries one level per
+    group of [su] consecutive trials - the outer levels are held fixed over each inner run.
+    Not proved outside the guard: (b) and (c) above, and associativity of nesting; the harness
+    decides them on exhausted solution sets (c25.py). *)
 Theorem C25_nest_groups_partial :
   forall (S : sem) (s : tseq) (f : nat) (fd : dfactor) (t t' : nat),
     factor_ok S s f fd = true -> f_derived fd = None -> t < s_trials S -> t' < s_trials S ->
